@@ -58,7 +58,7 @@ class Line:
         self.text, self.origin, self.label = text, origin, label
 
 
-LABEL_RE = re.compile(r"^\s*//\[([\w.\-@:]*)\]\s*$")
+LABEL_RE = re.compile(r"^\s*//\[([\w.\-@:,]*)\]\s*$")
 TICK_RE = re.compile(r"`((?:[^`])*)`")
 
 
@@ -109,8 +109,10 @@ class Item:
         if len(hits) != 1:
             raise ExtractError(f"@fn {self.scope}: {len(hits)} candidates in {self.ex.describe()}")
         b = find_top_level(m, "{;", hits[0])
-        if b < 0 or m[b] != "{":
+        if b < 0:
             raise ExtractError(f"@fn {self.scope}: no body")
+        if m[b] == ";":
+            return hits[0], b + 1
         return hits[0], match_bracket(m, b) + 1
 
     def find_anchor(self, anchor, k=1, repo_only=True):
@@ -195,7 +197,7 @@ def build_unit(unit_path, repo_root, twin=False):
     label = None
     i = 0
     header = ["#![allow(unused_imports, dead_code, unused_variables, unused_mut, unused_parens, unreachable_code, unreachable_patterns, non_snake_case, unused_assignments, private_interfaces, unused_braces)]",
-              "use vstd::prelude::*;", "use std::collections::{HashMap, HashSet};", "verus! {"]
+              "use vstd::prelude::*;", "use std::collections::{HashMap, HashSet};", "use std::hash::Hash;", "use std::fmt::Debug;", "verus! {"]
     for h in header:
         out.append(Line(h, ("gen", "header")))
     while i < len(raw):
@@ -372,8 +374,9 @@ def _do_extract(raw, i, unitfile, repo_root, out, log, meta, twin=False):
             if not f:
                 raise ExtractError(f"@contract: no fn in {ex.describe()}")
             b = find_top_level(mt, "{;", f.start())
-            if b < 0 or mt[b] != "{":
-                raise ExtractError(f"@contract: fn without body in {ex.describe()}")
+            if b < 0:
+                raise ExtractError(f"@contract: fn without end in {ex.describe()}")
+            # a body-less trait method declaration: clauses go in front of the `;`
             item.insert_before_brace(b, block)
         elif dname == "loop":
             block, i = parse_block(raw, i + 1, unitfile, default_label)
